@@ -8,9 +8,16 @@ primitive arena operations the harness reports (including those issued by
 arena-backed buffers and vectors) are replayed on the extracted Coq model,
 which must predict every (frame index, offset), every cleanup run, the shape
 (frames, a->frame->len, a->refs) after every operation, sampled block
-contents, and how the sequence ended (done / trap / exit).
+contents, and how the sequence ended (done / trap / exit).  The realloc calls
+the real buffer.c / vector.c issue are compared with the extracted
+buf_reserve / vec_reserve (container lane).
 Oracle: the extracted spec_check (ArenaSpec.v) applied to what the
 implementation returned, plus the harness' shadow copies of every live block.
+
+Verdicts are never gated: every oracle failure is emitted with its own
+signature.  Behaviour outside the property's quantifier is recognised by a
+predicate on the CASE only (below, next to each predicate the argument from the
+property text) and counted as 'outside: <reason>'.
 """
 import glob, hashlib, json, os, subprocess
 import common
@@ -19,25 +26,65 @@ TRANSLATORS = ['t_arena']
 TRUSTED = [
     'C19 modelling assumptions: malloc(3) returns maxalign-aligned chunks that never share addresses and does not fail for the '
     'sizes exercised (<= ~1 MiB); addresses do not wrap; cleanup functions do not use the arena; struct arena_stats and the '
-    'diagnostics text of arena_scope_validate are not modelled; vsnprintf is trusted to produce the formatted bytes',
-    'C19 tie: sizeof(struct arena_frame), sizeof(struct arena_cleanup), maxalign, sizeof(void *), POISON_SIZE are read by compiling '
-    'and running a program that #includes libks/arena.c (cc; clang -fsanitize=address): the C compiler\'s sizeof is trusted',
-    'C19 harness: harness/arena_harness.c (shadow copies, handle bookkeeping, tracing wrappers for arena-buffer.c/arena-vector.c) '
-    'and the trace-driven replay of buffer/vector allocations on the model',
+    'diagnostics text of arena_scope_validate are not modelled; vsnprintf is trusted to produce the formatted bytes; the model '
+    'keeps frame metadata apart from memory and freed chunks readable: beyond a len = 0 rewind or a frame freed by a leave of a '
+    'non-innermost scope it answers "unmodelled" (ArenaDefs.cut_exposed) and only the oracle judges the implementation',
+    'C19 tie: sizeof(struct arena_frame), sizeof(struct arena_cleanup), sizeof(struct vector), maxalign, sizeof(void *), POISON_SIZE '
+    'are read by compiling and running programs that #include libks/arena.c / libks/vector.c (cc; clang -fsanitize=address): the C '
+    'compiler\'s sizeof is trusted; the regular expressions of harness/t_arena.py (switch positions in arena_realloc_fast, realloc call '
+    'sites and doubling loops of buffer.c / vector.c, the pass-through callbacks of arena-buffer.c / arena-vector.c)',
+    'C19 harness: harness/arena_harness.c (shadow copies, handle bookkeeping, tracing wrappers for arena-buffer.c/arena-vector.c, '
+    'reads of arena words and block bytes without ASan instrumentation, liveness after a leave of a non-innermost scope by the '
+    'property\'s reading), the trace-driven replay of buffer/vector allocations on the model, and the calling patterns of '
+    'buffer_alloc_impl / buffer_puts / arena_vector_init / vector_reserve / vector_alloc transcribed in ArenaClientDefs.buf_op / vec_op '
+    '(pinned as text by t_arena.py)',
 ]
 
 SIGILL = 4
 REASONS = {1: 'outer-scope-use-not-detected', 2: 'misaligned-pointer', 3: 'block-outside-frame', 4: 'live-blocks-overlap',
            5: 'live-block-contents-changed', 6: 'realloc-prefix-lost', 7: 'cleanups-wrong', 8: 'unexpected-trap',
            9: 'unexpected-exit', 10: 'crash', 11: 'null-result', 12: 'bad-event', 13: 'frame-len-reset', 14: 'bad-handle',
-           15: 'outside-api', 16: 'outer-scope-shrink-not-detected'}
+           15: 'outside-api', 16: 'outer-scope-shrink-not-detected', 17: 'nonlifo-leave-undetected',
+           18: 'outer-scope-grow-not-detected'}
+SIG_NONLIFO = 'nonlifo-leave-undetected'
+
+
+# ---------------------------------------------------------------------------------------------
+# predicates on the CASE
+# ---------------------------------------------------------------------------------------------
+def leaves_nonlifo(seq, arena=None):
+    """The sequence leaves a scope that is not the innermost one (L k, k > 0).  INSIDE the property: C19 quantifies
+    over "all sequences of scope enter/leave" and arena_scope_enter / arena_scope_leave are exported by arena.h next
+    to the block-structured macro.  What is outside is only the MODEL's claim beyond the "len = 0" rewind such a
+    leave can cause (struct arena_frame then is client memory; ArenaDefs.cut_exposed answers "unmodelled"): there
+    the implementation is judged by the oracle alone and the model comparison stops."""
+    for o in seq:
+        t = o.split()
+        if len(t) >= 3 and t[1] == 'L' and int(t[2]) > 0 and (arena is None or int(t[0]) == arena):
+            return True
+    return False
+
+
+def names_foreign_pointer(seq):
+    """A realloc is handed a pointer into the middle of a block (R with mis != 0).  OUTSIDE the property: C19 speaks
+    of blocks "returned by the arena allocator"; a pointer that no call returned names no block.  arena_realloc
+    refuses it (NULL, EFAULT) and the oracle goes on judging; should it return something the oracle stops judging
+    the pointers (the model comparison, signals and exit codes stay judged)."""
+    for o in seq:
+        t = o.split()
+        if len(t) >= 5 and t[1] == 'R' and t[3] != '-1' and t[4] != '0':
+            return True
+    return False
+
 
 
 def constants():
     # the correspondence still runs when a transcribed expression changed shape (the translator reports that as a
     # broken tie); only the constants are needed here
     import t_arena
-    return t_arena.constants(common.REPO, strict=False)
+    c = t_arena.constants(common.REPO, strict=False)
+    c['sizeof_vector'] = t_arena.sizeof_vector(common.REPO)
+    return c
 
 
 # ---------------------------------------------------------------------------------------------
@@ -68,7 +115,9 @@ def pick_size(rng, big_ok=True):
 
 def gen_seq(rng, maxops, two_arenas, allow_misuse=True, shrink_validated=True):
     """One sequence (list of op strings for the C harness) that respects the API, except that with small probability it
-    ends in a use of a non-innermost scope (which the arena has to refuse) or in a request nothing can satisfy."""
+    ends in a use of a non-innermost scope (which the arena has to refuse), in a request nothing can satisfy, or in a
+    leave of a scope that is not the innermost one followed by a few allocations (inside the property; known finding
+    nonlifo-leave-undetected)."""
     A = [GenArena(), GenArena()]
     ops = []
     nobj = [0]
@@ -117,6 +166,31 @@ def gen_seq(rng, maxops, two_arenas, allow_misuse=True, shrink_validated=True):
                 ops.append('%d E' % a)
                 S.depth += 1
             continue
+        if r < 0.19 and S.depth >= 2 and allow_misuse and rng.random() < 0.03:
+            # leave a scope that is not the innermost one, then allocate through what is now the innermost scope
+            # (it traps: its id no longer matches) or through a fresh scope (it gets the still-open scope's id).
+            # Nothing allocated before is touched again by this generator: its frame may have been freed.
+            k = rng.randint(1, S.depth - 1)
+            ops.append('%d L %d' % (a, k))
+            S.depth -= 1
+            for l in S.labels:
+                l['live'] = False
+            if rng.random() < 0.3:
+                ops.append('%d L 0' % a)
+                S.depth -= 1
+            if rng.random() < 0.8:
+                ops.append('%d E' % a)
+                S.depth += 1
+            if S.depth > 0:
+                for _ in range(rng.randint(1, 3)):
+                    size = rng.choice([8, 16, 16, 32, 100, 4096])
+                    lab = new_label(a, S.depth, size)
+                    S.labels[lab]['live'] = False
+                    ops.append('%d M 0 %d %d' % (a, size, lab))
+                    if rng.random() < 0.5:
+                        fill(a, lab, 0, size)
+            ended = True
+            break
         if r < 0.19:
             ops.append('%d L 0' % a)
             lvl = S.depth
@@ -188,9 +262,9 @@ def gen_seq(rng, maxops, two_arenas, allow_misuse=True, shrink_validated=True):
                     mis = rng.choice([1, 3, 4, 7])
                     lab = new_label(a, 0, 0)
                     S.labels[lab]['live'] = False
-                    # a pointer into the middle of a block: outside the API (EFAULT, NULL); nothing after it is judged
+                    # a pointer into the middle of a block: outside the API; the arena refuses it (EFAULT, NULL),
+                    # nothing has changed and the sequence goes on
                     ops.append('%d R %d %d %d %d %d %d' % (a, 0, src, mis, old - mis, new, lab))
-                    ended = True
                 else:
                     S.labels[src]['live'] = False
                     lab = new_label(a, level, new)
@@ -248,9 +322,8 @@ def gen_seq(rng, maxops, two_arenas, allow_misuse=True, shrink_validated=True):
                     n = rng.choice([1, 10, 100, 1000, 20000])
                     ops.append('%d BP %d %s' % (a, o, common.hexs(bytes(rng.choice(b'abc') for _ in range(n)))))
                 elif rng.random() < 0.3:
-                    # vector_reserve with room left but not enough: the old size vector.c names is smaller than the
-                    # block (outside the API the theorems assume: the oracle stops judging there, the model is still
-                    # compared with the implementation)
+                    # vector_reserve with room left but not enough: the old size vector.c names is the used part of
+                    # the block (inside the API: ArenaSpec.is_user_at)
                     ops.append('%d VR %d %d' % (a, o, rng.choice([2, 5, 17, 40, 100])))
                 else:
                     ops.append('%d VA %d %d' % (a, o, rng.choice([1, 5, 17, 40, 300])))
@@ -330,12 +403,14 @@ def run_harness(binary, seqs):
 
 
 def parse_block(text):
-    """-> dict(per arena: list of (optext, result|None)), ending, highlevel flags)"""
+    """-> dict(per arena: list of (optext, result|None)), ending, container-level lines, events in output order)"""
     per = {0: [], 1: []}
     order = []
+    events = []     # ('prim', arena, index into per[arena]) | ('high', line)
     ending = ('done', 0)
     high = []
     err = None
+    wild = None
     for line in text.split('\n'):
         line = line.strip()
         if not line:
@@ -345,28 +420,35 @@ def parse_block(text):
             ending = (t[1], int(t[2]) if len(t) > 2 else 0)
         elif line.startswith('#'):
             high.append(line)
+            events.append(('high', line))
         elif line.startswith('HARNESS-ERROR'):
             err = line
         else:
             a = int(line[0])
             body = line[2:]
-            if ' => ' in body:
+            if ' => p wild ' in body:
+                # the returned pointer lies in no frame: the operation counts as not returned (the harness stops, exit 96)
+                op, rest = body.split(' => ', 1)
+                wild = (a, len(per[a]), op, int(rest.split()[2]))
+                per[a].append((op.strip(), None))
+            elif ' => ' in body:
                 op, rest = body.split(' => ', 1)
                 res, shape, sums = [x.strip() for x in rest.split(' | ')]
                 per[a].append((op, {'res': res, 'shape': shape, 'sums': sums}))
             else:
                 per[a].append((body.strip(), None))
             order.append(a)
-    return {'per': per, 'ending': ending, 'high': high, 'error': err, 'order': order}
+            events.append(('prim', a, len(per[a]) - 1))
+    return {'per': per, 'ending': ending, 'high': high, 'error': err, 'order': order, 'events': events, 'wild': wild}
 
 
 def cfg_toks(consts, asan, pagesize, oracle=False):
     """configuration for the model: everything as the source has it; for the oracle the alignment demanded is the
     platform's pointer size, whatever arena.c uses"""
     gap = consts['poison_asan'] if asan else consts['poison_normal']
-    return '%d %d %d %d %d %d' % (consts['pointer_size'] if oracle else consts['maxalign'], consts['sizeof_frame'],
-                                  consts['sizeof_cleanup'], gap, consts['frame_mult'] * pagesize,
-                                  consts['shrink_validated'])
+    return '%d %d %d %d %d %d %d' % (consts['pointer_size'] if oracle else consts['maxalign'], consts['sizeof_frame'],
+                                     consts['sizeof_cleanup'], gap, consts['frame_mult'] * pagesize,
+                                     consts['shrink_validated'], consts['grow_validated'])
 
 
 def ending_word(parsed, a):
@@ -407,16 +489,24 @@ def oracle_line(cfg, per, ending):
 
 
 def compare(per, model_ans, ending):
-    """model answer vs implementation for one arena; returns None or a description"""
+    """model answer vs implementation for one arena; returns (None or a description, unmodelled?).
+    When the model answers "unmodelled" (ArenaDefs.cut_exposed: the "len = 0" rewind under ASan, or a block below
+    the frame header was handed out) only the operations up to and including that one are compared."""
     parts = [x.strip() for x in model_ans.split(' ; ')]
     if not parts or not parts[-1].startswith('END '):
-        return 'model answer malformed: ' + model_ans[:200]
+        return 'model answer malformed: ' + model_ans[:200], False
     mend = parts[-1].split()[1]
     mres = parts[:-1]
     done = [(op, r) for op, r in per if r is not None]
-    if len(mres) != len(done):
+    unmodelled = mend == 'unmodelled'
+    if unmodelled:
+        if len(done) < len(mres):
+            return 'model executed %d operations before it stops being claimed, implementation only %d (%s)' % (
+                len(mres), len(done), ending), True
+        done = done[:len(mres)]
+    elif len(mres) != len(done):
         return 'model executed %d operations, implementation %d (model ending %s, implementation %s)' % (
-            len(mres), len(done), mend, ending)
+            len(mres), len(done), mend, ending), False
     for i, ((op, r), m) in enumerate(zip(done, mres)):
         mr, mshape = [x.strip() for x in m.split(' | ')]
         ir = r['res'].split()
@@ -425,17 +515,90 @@ def compare(per, model_ans, ending):
         if ir[0] == 'b' and mr == 'b ?':
             pass
         elif ' '.join(ir) != mr:
-            return 'operation %d (%s): implementation %s, model %s' % (i, op, r['res'], mr)
+            return 'operation %d (%s): implementation %s, model %s' % (i, op, r['res'], mr), unmodelled
         if r['shape'] != mshape:
-            return 'operation %d (%s): shape implementation %s, model %s' % (i, op, r['shape'], mshape)
-    if mend != ending:
-        return 'ending: implementation %s, model %s' % (ending, mend)
-    return None
+            return 'operation %d (%s): shape implementation %s, model %s' % (i, op, r['shape'], mshape), unmodelled
+    if not unmodelled and mend != ending:
+        return 'ending: implementation %s, model %s' % (ending, mend), False
+    return None, unmodelled
 
 
-def classify(seq):
-    """key parameters of a failing case for the signature"""
-    return ''
+# ---------------------------------------------------------------------------------------------
+# container lane: the realloc calls buffer.c / vector.c issue vs the extracted buf_reserve / vec_reserve
+# ---------------------------------------------------------------------------------------------
+def container_ops(p):
+    """-> {obj: {'kind', 'stride', 'ops': [(cop text, [(old, new) traced], label)]}} from the begin/end lines"""
+    objs = {}
+    cur = None
+    for ev in p['events']:
+        if ev[0] == 'high':
+            t = ev[1].split()
+            # "# a OP o begin args" / "# a OP o => c ok"
+            if len(t) >= 5 and t[4] == 'begin':
+                a, op, o = int(t[1]), t[2], int(t[3])
+                args = [int(x) for x in t[5:]]
+                if op == 'BA':
+                    objs[o] = {'kind': 'B', 'arena': a, 'ops': []}
+                    cop = 'R %d' % args[0]
+                elif op == 'BP':
+                    cop = 'P %d' % args[0]
+                elif op == 'VI':
+                    objs[o] = {'kind': 'V', 'arena': a, 'stride': args[0], 'ops': []}
+                    cop = 'R %d' % args[1]
+                elif op == 'VA':
+                    cop = 'A %d' % args[0]
+                elif op == 'VR':
+                    cop = 'R %d' % args[0]
+                else:
+                    raise RuntimeError('arena harness: unknown container operation ' + ev[1])
+                if o not in objs:
+                    raise RuntimeError('arena harness: container operation on an unknown object: ' + ev[1])
+                cur = (o, cop, [], ev[1])
+                objs[o]['ops'].append(cur)
+            else:
+                cur = None
+        elif cur is not None and ev[1] == objs[cur[0]]['arena']:
+            t = p['per'][ev[1]][ev[2]][0].split()
+            if t[0] == 'R':
+                cur[2].append((int(t[4]), int(t[5])))
+    return objs
+
+
+def container_lane(drv, parsed, seqs, consts, bname, res):
+    qs, idx = [], []
+    for si, p in enumerate(parsed):
+        for o, ob in sorted(container_ops(p).items()):
+            if ob['kind'] == 'B':
+                qs.append('bhist ' + ' '.join(c for _, c, _, _ in ob['ops']))
+            else:
+                qs.append('vhist %d %d %s' % (consts['sizeof_vector'], ob['stride'], ' '.join(c for _, c, _, _ in ob['ops'])))
+            idx.append((si, o, ob))
+    ans = common.run_driver(drv, qs) if qs else []
+    for (si, o, ob), an in zip(idx, ans):
+        case = {'seq': seqs[si], 'build': bname}
+        groups = an.split('|')
+        if an.startswith(('BAD', 'EXN')):
+            res.disagreements.append({'case': case, 'what': 'container lane: driver ' + an[:200]})
+            continue
+        for j, (_, cop, traced, label) in enumerate(ob['ops']):
+            res.count('%s:container-op' % bname)
+            if j >= len(groups) or groups[j] == 'overflow':
+                res.disagreements.append({'case': case, 'what': 'container lane: %s: the model answers overflow, '
+                                          'the implementation issued %s' % (label, traced)})
+                break
+            want = [] if groups[j] == '-' else [tuple(int(x) for x in g.split()) for g in groups[j].split(',')]
+            # a trap ends the operation early: what was issued must be a prefix of what the model issues, and the
+            # call that trapped is its last element
+            ok = traced == want or (ending_is_trap(parsed[si]) and j == len(ob['ops']) - 1 and traced == want[:len(traced)])
+            if not ok:
+                res.disagreements.append({'case': case, 'what': 'container lane: %s (object %d, %s): buffer.c/vector.c issued '
+                                          'realloc (old, new) %s, buf_reserve/vec_reserve %s' % (label, o, cop, traced, want)})
+                break
+            res.count('%s:container-realloc' % bname, len(traced))
+
+
+def ending_is_trap(p):
+    return p['ending'] == ('signal', SIGILL)
 
 
 def evaluate(ctx, cases, res, builds, consts, label=''):
@@ -450,7 +613,7 @@ def evaluate(ctx, cases, res, builds, consts, label=''):
         if not seqs:
             continue
         parsed = run_harness(binary, seqs)
-        outside = set()
+        nonlifo_at = {}     # sequence index -> (arena, operation index) of the first nonlifo-leave-undetected verdict
         qs = []
         idx = []
         for si, p in enumerate(parsed):
@@ -465,21 +628,44 @@ def evaluate(ctx, cases, res, builds, consts, label=''):
             p = parsed[si]
             case = {'seq': seqs[si], 'build': bname}
             m, ok = ans[2 * j], ans[2 * j + 1]
-            d = compare(p['per'][a], m, e) if not m.startswith(('BAD', 'EXN')) else ('driver: ' + m)
+            if m.startswith(('BAD', 'EXN')):
+                d, unmodelled = 'driver: ' + m, False
+            else:
+                d, unmodelled = compare(p['per'][a], m, e)
+            if unmodelled:
+                if leaves_nonlifo(seqs[si], a):
+                    res.count('outside: %s: model not claimed beyond a len = 0 rewind or a freed frame after a leave of a non-innermost '
+                              'scope (the frame header is client memory; the oracle still judges the implementation)' % bname)
+                else:
+                    # the model may stop being a model only where the case leaves the LIFO guard
+                    res.disagreements.append({'case': case, 'arena': a, 'model': m[:300],
+                                              'what': 'the model answers "unmodelled" for a sequence that leaves scopes innermost first'})
             if d is not None:
                 res.disagreements.append({'case': case, 'arena': a, 'what': d, 'model': m[:300],
                                           'impl': str(p['per'][a][-3:])[:400]})
             if ok.split()[-1:] == ['15'] and ok.startswith('0 '):
-                outside.add(si)     # the sequence leaves the API: not judged from there on
-                res.count('%s:outside-api' % bname)
+                # the oracle stopped judging pointers at an operation outside the API; model comparison, signals
+                # and exit codes stay judged
+                if names_foreign_pointer(seqs[si]):
+                    res.count('outside: %s: a pointer no call returned was given to realloc and it was not refused' % bname)
+                else:
+                    res.oracle_failures.append({'case': case, 'signature': 'left-api-unexpectedly',
+                                                'what': 'arena %d, %s build: the oracle reports operation %s as outside the API '
+                                                        'although the generated sequence respects it' % (a, bname, ok.split()[1])})
             elif ok != '1':
                 t = ok.split()
                 reason = REASONS.get(int(t[2]), 'unclassified') if len(t) >= 3 and t[0] == '0' else 'oracle-error'
                 opi = int(t[1]) if len(t) >= 3 else -1
                 optext = p['per'][a][opi][0] if 0 <= opi < len(p['per'][a]) else '?'
+                if reason == SIG_NONLIFO:
+                    if not leaves_nonlifo(seqs[si], a):
+                        reason = 'nonlifo-verdict-without-nonlifo-leave'     # cannot happen by spec_walk; never fold it
+                    else:
+                        nonlifo_at.setdefault(si, (a, opi))
                 res.oracle_failures.append({'case': case, 'signature': reason,
                                             'what': 'arena %d, %s build, operation %d (%s): %s' % (a, bname, opi, optext, reason),
                                             'impl': str(p['per'][a][max(0, opi - 1):opi + 1])[:400]})
+        container_lane(drv, parsed, seqs, consts, bname, res)
         for si, p in enumerate(parsed):
             case = {'seq': seqs[si], 'build': bname}
             res.evaluations += 1
@@ -490,18 +676,34 @@ def evaluate(ctx, cases, res, builds, consts, label=''):
                 if h.endswith('=> c 0'):
                     res.oracle_failures.append({'case': case, 'signature': 'arena-backed-container-content',
                                                 'what': '%s build: %s' % (bname, h)})
-            if si in outside:
-                pass
-            elif kind == 'signal' and code != SIGILL:
-                res.oracle_failures.append({'case': case, 'signature': 'signal-%d' % code,
-                                            'what': '%s build: the sequence died with signal %d (sanitizer report or memory fault)' % (bname, code)})
-            if si not in outside and kind == 'exit' and code != 1:
-                res.oracle_failures.append({'case': case, 'signature': 'exit-%d' % code,
-                                            'what': '%s build: the sequence exited with status %d' % (bname, code)})
+            # no crash, no sanitizer report, no stray exit status - judged for EVERY sequence.  The one attribution:
+            # a death AFTER the oracle has reported nonlifo-leave-undetected in this very sequence (a block of a scope
+            # still open, or the frame header, was handed out after an L k, k > 0) is that finding's consequence: the
+            # arena works on its own overwritten / poisoned header.  It is reported under the same signature, with the
+            # operation that was reported first.
+            if (kind == 'signal' and code != SIGILL) or (kind == 'exit' and code != 1):
+                what = ('the sequence died with signal %d (sanitizer report or memory fault)' % code if kind == 'signal'
+                        else 'the sequence exited with status %d' % code)
+                sig = '%s-%d' % (kind, code)
+                if kind == 'exit' and code == 96 and p['wild']:
+                    wa, wi, wop, wmod = p['wild']
+                    sig = 'wild-pointer-returned'
+                    what = ('operation %d of arena %d (%s) returned a pointer that lies in no frame of the arena; pointer mod 16 = %d'
+                            ' (%s)' % (wi, wa, wop, wmod, 'not %d-aligned' % consts['pointer_size'] if wmod % consts['pointer_size'] else 'aligned'))
+                if si in nonlifo_at and leaves_nonlifo(seqs[si]):
+                    a0, op0 = nonlifo_at[si]
+                    res.count('%s:death-after-nonlifo-verdict' % bname)
+                    res.oracle_failures.append({'case': case, 'signature': SIG_NONLIFO,
+                                                'what': '%s build: %s after the hand-out reported at operation %d of arena %d'
+                                                        % (bname, what, op0, a0)})
+                else:
+                    res.oracle_failures.append({'case': case, 'signature': sig, 'what': '%s build: %s' % (bname, what)})
             # distribution
             nprim = sum(len(p['per'][a]) for a in (0, 1))
             res.count('%s:ending=%s' % (bname, kind if kind == 'done' else '%s%d' % (kind, code)))
             res.count('%s:primitive-ops' % bname, nprim)
+            if leaves_nonlifo(seqs[si]):
+                res.count('%s:leaves-non-innermost-scope' % bname)
             nfr = 1
             inplace = moved = 0
             for a in (0, 1):
@@ -534,15 +736,45 @@ def evaluate(ctx, cases, res, builds, consts, label=''):
     return res
 
 
+def findings_needing_corpus():
+    """every C19 entry of known_findings.json: the commit id of a `fixed` line, the signature of a `known` entry"""
+    k = common.load_known()
+    out = []
+    for line in k.get('fixed', []):
+        t = line.split()
+        if 'property=C19' in t:
+            out.append(t[t.index('property=C19') + 1])
+    for e in k.get('known', []):
+        if e.get('property') == 'C19':
+            out.append(e['signature'])
+    return out
+
+
 def load_corpus():
+    """Corpus cases run first.  A missing or empty directory, an unreadable case, or a C19 entry of known_findings.json
+    without a case that names it ("finding": <commit id | signature>) raises: the check reports a broken tie."""
+    d = os.path.join(common.VERIF, 'corpus', 'C19')
+    paths = sorted(glob.glob(os.path.join(d, '*.json')))
+    if not paths:
+        raise RuntimeError('C19: corpus directory %s is missing or empty' % d)
     cases = []
-    for pth in sorted(glob.glob(os.path.join(common.VERIF, 'corpus', 'C19', '*.json'))):
+    named = set()
+    for pth in paths:
         c = json.load(open(pth))
-        d = {'seq': c['seq']}
+        if not c.get('seq'):
+            raise RuntimeError('C19: corpus case %s has no sequence' % pth)
+        dd = {'seq': c['seq']}
         if 'builds' in c:
-            d['builds'] = c['builds']
-        cases.append(d)
-    return cases
+            dd['builds'] = c['builds']
+        f = c.get('finding')
+        for x in ([f] if isinstance(f, str) else (f or [])):
+            named.add(x)
+        cases.append((0 if f else 1, dd))
+    missing = [x for x in findings_needing_corpus() if x not in named]
+    if missing:
+        raise RuntimeError('C19: known_findings.json entries without a corpus case under corpus/C19: %s' % ', '.join(missing))
+    # the cases of known / fixed findings first
+    return [dd for _, dd in sorted(cases, key=lambda x: x[0])]
 
 
 def make_builds(ctx, want_asan=True):
@@ -555,12 +787,15 @@ def make_builds(ctx, want_asan=True):
 
 def run(ctx, n=None, maxops=None):
     res = common.Result()
-    res.rule = ('operation sequences that respect the API (strictly LIFO scopes, realloc with the true old size, writes inside '
+    res.rule = ('operation sequences that respect the API (LIFO scopes, realloc with the true old size, writes inside '
                 'live blocks) over enter/leave/malloc/calloc/realloc/strndup/strdup/sprintf/cleanup/fill/arena_free, sizes 0 .. '
-                '1 MiB aimed at alignment and frame boundaries, one or two arenas, arena-backed buffers and vectors; a few '
-                'sequences end in a use of a non-innermost scope - allocation, cleanup, growing or shrinking realloc of a block '
-                'of any scope - (must trap) or in a request no frame can hold (must exit); vector_reserve on a vector that is '
-                'not full (names less than the block size: model compared, oracle stops judging); '
+                '1 MiB aimed at alignment and frame boundaries, one or two arenas, arena-backed buffers and vectors '
+                '(vector_reserve on vectors that are not full included: the used part of the block is named); a few '
+                'sequences contain a realloc of a pointer into the middle of a block (must be refused, the sequence goes on), '
+                'end in a use of a non-innermost scope - allocation, cleanup, growing or shrinking realloc of a block '
+                'of any scope - (must trap), in a request no frame can hold (must exit), or in a LEAVE of a non-innermost '
+                'scope followed by allocations (inside the property; known finding nonlifo-leave-undetected); every realloc '
+                'buffer.c / vector.c issue is compared with the extracted buf_reserve / vec_reserve; '
                 'non-trivial = at least 6 primitive operations and (a second frame, a reallocation, or a trap/exit); '
                 'distinct by sequence hash; every sequence runs in the normal and in the ASan build')
     consts = constants()
